@@ -48,12 +48,16 @@ var Mutants = map[string][]Mutant{
 		{"ToPDF forgets ReplaceArcs", "path.go", `\tp = p\.ReplaceArcs\(\)\n\n\tsb := strings\.Builder\{\}\n\tvar x, y float64\n\tfor i := 0; i < len\(p\.d\); \{\n\t\tcmd := p\.d\[i\]\n\t\tswitch cmd \{\n\t\tcase MoveToCmd:\n\t\t\tx, y = p\.d\[i\+1\], p\.d\[i\+2\]\n\t\t\tfmt\.Fprintf\(&sb, " %v %v m"`, "\tsb := strings.Builder{}\n\tvar x, y float64\n\tfor i := 0; i < len(p.d); {\n\t\tcmd := p.d[i]\n\t\tswitch cmd {\n\t\tcase MoveToCmd:\n\t\t\tx, y = p.d[i+1], p.d[i+2]\n\t\t\tfmt.Fprintf(&sb, \" %v %v m\"", "E10.consumer"},
 	},
 	"C04": {
+		{"Offset uses the orientation of the first sub-path", "path_stroke.go", `\t\tif pi\.Closed\(\) && !FastStroke \{\n\t\t\tif pi\.CCW\(\) \{\n\t\t\t\tr = r\.Settle\(Positive\)`, "\t\tif pi.Closed() && !FastStroke {\n\t\t\tif p.CCW() {\n\t\t\t\tr = r.Settle(Positive)", "E11.subpath-loop"},
 		{"zero-length Close leaves the sub-path open", "path_stroke.go", `(\t\tcase CloseCmd:\n\t\t\tend = Point\{p\.d\[i\+1\], p\.d\[i\+2\]\}\n)(\t\t\tif !Equal\(start\.X, end\.X\) \|\| !Equal\(start\.Y, end\.Y\) \{)`, "${1}\t\t\tif Equal(start.X, end.X) && Equal(start.Y, end.Y) {\n\t\t\t\tbreak\n\t\t\t}\n${2}", "E11.cap-join"},
 		{"Offset caps open paths", "path_stroke.go", `rhs, lhs := pi\.offset\(w, ButtCap, RoundJoin, false, tolerance\)`, `rhs, lhs := pi.offset(w, ButtCap, RoundJoin, true, tolerance)`, "E11.cap-join"},
 		{"no wrap-around join", "path_stroke.go", `if i\+1 < len\(states\) \|\| closed \{`, `if i+1 < len(states) {`, "E11.cap-join"},
 		{"closed flag also set by MoveTo", "path_stroke.go", `\t\tcase MoveToCmd:\n\t\t\tend = Point\{p\.d\[i\+1\], p\.d\[i\+2\]\}\n\t\tcase LineToCmd:\n\t\t\tend = Point\{p\.d\[i\+1\], p\.d\[i\+2\]\}\n\t\t\tn := end`, "\t\tcase MoveToCmd:\n\t\t\tend = Point{p.d[i+1], p.d[i+2]}\n\t\t\tclosed = false\n\t\tcase LineToCmd:\n\t\t\tend = Point{p.d[i+1], p.d[i+2]}\n\t\t\tn := end", "E11.cap-join"},
 	},
 	"C05": {
+		{"negative offset: one period added once", "path.go", `\t\toffset = math\.Mod\(offset, dTotal\) \+ dTotal\n`, "\t\toffset += dTotal\n", "E11.dash-offset-range"},
+		{"checkDash subtracts the start position", "path.go", `if length <= pos\+dd\[i\] \{`, "if length <= dd[i]-pos {", "E11.dash-cover"},
+		{"dashCanonical reduces the offset by the undoubled sum", "path.go", `\t\td = d\[:mid\]\n\t\}\n\treturn offset, d\n`, "\t\td = d[:mid]\n\t}\n\tdTotal := 0.0\n\tfor _, dd := range d {\n\t\tdTotal += dd\n\t}\n\toffset = math.Mod(offset, dTotal)\n\treturn offset, d\n", "E11.dash-period"},
 		{"closedness of the whole path decides every sub-path", "path.go", `(\tq := &Path\{\}\n)(\tfor _, ps := range p\.Split\(\) \{\n\t\ti := i0\n(?s:.*?))if ps\.Closed\(\) \{`, "${1}\tclosedAll := p.Closed()\n${2}if closedAll {", "E11.dash-independent"},
 		{"dash phase carried across sub-paths", "path.go", `\tq := &Path\{\}\n\tfor _, ps := range p\.Split\(\) \{\n\t\ti := i0\n\t\tpos := pos0\n`, "\tq := &Path{}\n\ti := i0\n\tpos := pos0\n\tfor _, ps := range p.Split() {\n", "E11.dash-independent"},
 		{"arc cut relative to the arc start", "path.go", `ellipseSplit\(rx, ry, phi, cx, cy, startTheta, theta2, theta\)`, `ellipseSplit(rx, ry, phi, cx, cy, theta1, theta2, theta)`, "E11.cut-carried"},
@@ -69,6 +73,7 @@ var Mutants = map[string][]Mutant{
 		{"Join passes radians to ArcTo", "path.go", `p\.ArcTo\(d\[1\], d\[2\], d\[3\]\*180\.0/math\.Pi, large, sweep, d\[5\], d\[6\]\)`, `p.ArcTo(d[1], d[2], d[3], large, sweep, d[5], d[6])`, "E8.units"},
 	},
 	"C08": {
+		{"FastBounds shadows the carried end point", "path.go", `\t\t\tcp := Point\{p\.d\[i\+1\], p\.d\[i\+2\]\}\n\t\t\tend = Point\{p\.d\[i\+3\], p\.d\[i\+4\]\}\n\t\t\txmin = math\.Min\(xmin, math\.Min\(cp\.X, end\.X\)\)`, "\t\t\tcp, end := Point{p.d[i+1], p.d[i+2]}, Point{p.d[i+3], p.d[i+4]}\n\t\t\txmin = math.Min(xmin, math.Min(cp.X, end.X))", "E2.carried-shadow"},
 		{"FastBounds quad max uses Min", "path.go", `xmax = math\.Max\(xmax, math\.Max\(cp\.X, end\.X\)\)`, `xmax = math.Max(xmax, math.Min(cp.X, end.X))`, "E3.homogeneity"},
 		{"FastBounds cubic ymin forgets cp2", "path.go", `ymin = math\.Min\(ymin, math\.Min\(cp1\.Y, math\.Min\(cp2\.Y, end\.Y\)\)\)`, `ymin = math.Min(ymin, math.Min(cp1.Y, end.Y))`, "E3."},
 		{"Bounds derives the top angle from the right angle", "path.go", `thetaTop := math\.Atan2\(ry\*cosphi, rx\*sinphi\)`, `thetaTop := thetaRight + 0.5*math.Pi`, "E3.arc-extrema"},
@@ -76,6 +81,7 @@ var Mutants = map[string][]Mutant{
 		{"Rect.Add max reads the low field", "util.go", `x1 := math\.Max\(r\.X1, q\.X1\)`, `x1 := math.Max(r.X1, q.X0)`, "E3.mirror"},
 	},
 	"C09": {
+		{"Reverse keeps the closed flag across sub-paths", "path.go", `\t\t\t\tq\.d = append\(q\.d, CloseCmd, first\.X, first\.Y, CloseCmd\)\n\t\t\t\tclosed = false\n\t\t\t\}\n\t\t\tif i != 0 \{`, "\t\t\t\tq.d = append(q.d, CloseCmd, first.X, first.Y, CloseCmd)\n\t\t\t}\n\t\t\tif i != 0 {", "E11.subpath-flag"},
 		{"half-turn shortcut taken for a chord equal to the radius", "path_util.go", `Equal\(math\.Abs\(x2-x1\), 2\.0\*rx\)`, "Equal(math.Abs(x2-x1), rx)", "E3.arc-shortcut"},
 		{"SplitAt reads the whole path's data", "path.go", `cp := Point\{ps\.d\[i\+1\], ps\.d\[i\+2\]\}\n\t\t\t\tend = Point\{ps\.d\[i\+3\], ps\.d\[i\+4\]\}\n\n\t\t\t\tif j == len\(ts\) \{\n\t\t\t\t\tq\.QuadTo`, "cp := Point{p.d[i+1], p.d[i+2]}\n\t\t\t\tend = Point{ps.d[i+3], ps.d[i+4]}\n\n\t\t\t\tif j == len(ts) {\n\t\t\t\t\tq.QuadTo", "E2.cursor-domain"},
 		{"Reverse ends a quad record with LineToCmd", "path.go", `q\.d = append\(q\.d, QuadToCmd, cx, cy, end\.X, end\.Y, QuadToCmd\)`, `q.d = append(q.d, QuadToCmd, cx, cy, end.X, end.Y, LineToCmd)`, "E2.record"},
@@ -92,6 +98,8 @@ var Mutants = map[string][]Mutant{
 		{"Close retags one end only", "path.go", `\t\tp\.d\[len\(p\.d\)-1\] = CloseCmd\n\t\tp\.d\[len\(p\.d\)-cmdLen\(LineToCmd\)\] = CloseCmd\n`, "\t\tp.d[len(p.d)-1] = CloseCmd\n", "E2.retag"},
 	},
 	"C11": {
+		{"smooth cubic reflects after any command", "path.go", `\t\t\tif prevCmd == 'C' \|\| prevCmd == 'c' \|\| prevCmd == 'S' \|\| prevCmd == 's' \{\n\t\t\t\tcp1 = p0\.Mul\(2\.0\)\.Sub\(c\)\n\t\t\t\}\n`, "\t\t\tcp1 = p0.Mul(2.0).Sub(c)\n", "E11.svg-smooth"},
+		{"smooth quad forgets its control point", "path.go", `\t\t\tp\.QuadTo\(cp\.X, cp\.Y, p1\.X, p1\.Y\)\n\t\t\tq = cp\n\t\tcase 'A', 'a':`, "\t\t\tp.QuadTo(cp.X, cp.Y, p1.X, p1.Y)\n\t\tcase 'A', 'a':", "E11.svg-smooth"},
 		{"upper-case closepath may be repeated", "path.go", `if cmd == 'z' \|\| cmd == 'Z' \|\| !\(path\[i\]`, "if cmd == 'z' || !(path[i]", "E4.parser-progress"},
 		{"ToSVG forgets the pen after an arc", "path.go", `\t\t\tlarge, sweep := toArcFlags\(p\.d\[i\+4\]\)\n\t\t\tx, y = p\.d\[i\+5\], p\.d\[i\+6\]\n\t\t\tsLarge := "0"\n\t\t\tif large \{\n\t\t\t\tsLarge = "1"\n\t\t\t\}\n\t\t\tsSweep := "0"\n\t\t\tif sweep \{\n\t\t\t\tsSweep = "1"\n\t\t\t\}\n\t\t\tif 90\.0 <= rot`, "\t\t\tlarge, sweep := toArcFlags(p.d[i+4])\n\t\t\tsLarge := \"0\"\n\t\t\tif large {\n\t\t\t\tsLarge = \"1\"\n\t\t\t}\n\t\t\tsSweep := \"0\"\n\t\t\tif sweep {\n\t\t\t\tsSweep = \"1\"\n\t\t\t}\n\t\t\tif 90.0 <= rot", "E2.pen"},
 		{"ParseSVGPath loses its guard", "path.go", `path\[0\] == ',' \|\| len\(path\) <= i \|\| path\[i\] < 'A'`, `path[0] == ',' || path[i] < 'A'`, "E4.index-guard"},
